@@ -17,6 +17,9 @@ HARNESSES = {
     "two-formats-lazy": ("formats", "lazy", False, [("to_jsonb", "n", "F"), ("to_msgpack", "n", "F")]),
     "format-vs-dialect-postponed": ("formats", "postponed", True, [("from_json", "n", "F"), ("to_dict", "D1", "F")]),
     "mutual-pair": ("mutual", "eager", False, [("to_dict", "n", "MA"), ("from_dict", "n", "MB")]),
+    "disc-two-tags": ("disc", "eager", False, [("from_dict", "n", "Base"), ("from_dict", "n", "BaseB")]),
+    "disc-holder-vs-base-lazy": ("disc", "lazy", False, [("from_dict", "n", "HD"), ("from_dict", "n", "BaseB")]),
+    "disc-dialect-vs-plain": ("disc", "eager", True, [("from_dict", "D1", "Base"), ("from_dict", "n", "HD")]),
     "three-threads-lazy": ("nested", "lazy", False, [("from_dict", "n", "H"), ("to_dict", "n", "H"), ("from_dict", "n", "H")]),
 }
 _CODES = None
